@@ -256,6 +256,14 @@ fn run_case_in<K: HKey>(dir: &Path, cfg: &Cfg, universe: &[u8], opsq: &[Op], res
             Err(e) => {
                 let p = if matches!(op, Op::Reopen) { vec!["C02"] } else if matches!(op, Op::Abort { .. }) { vec!["C13", "C01"] } else { vec!["C01"] };
                 vs.push(mk(p, "op-failed", format!("operation failed without any fault: {e}"), upto));
+                if matches!(op, Op::Reopen) {
+                    // the restart changes no contents: what the failed open left under cas/ and staging/ is still judged (C07)
+                    let mut fd = Vec::new();
+                    real::check_dir(dir, &model, &mut fd);
+                    for x in fd {
+                        vs.push(mk(vec!["C07"], &format!("after-failed-reopen-{}", x.oracle), x.detail, upto));
+                    }
+                }
                 return vs;
             }
             Ok(r) if r != want => {
